@@ -50,6 +50,7 @@ MUnion(i, j, d)     == [v |-> "union", i |-> i, j |-> j, distinct |-> d]
 OnStr(n)            == [k |-> "str", n |-> n]
 MTransfer(i, j)     == [v |-> "transfer", i |-> i, j |-> j]
 MGetName(i, c)      == [v |-> "getname", i |-> i, c |-> c]        \* observation: tbl[ref].name
+MEquiv(i, kind, lhs, rhs, mc) == [v |-> "equiv", i |-> i, kind |-> kind, lhs |-> lhs, rhs |-> rhs, modcols |-> mc]
 
 (* visible columns of a given type, as a sequence in output order *)
 VisOfTy(t, ty) == SelectSeq(t.vis, LAMBDA c : t.ty[c] = ty)
